@@ -61,6 +61,10 @@ def parse_ann(node, tv):
         return r if l == NONE else l
     raise NotImplementedError(ast.dump(node))
 
+def _is_list_ann(node, tv):
+    try: return (parse_ann(node, tv) or Ty('x')).kind == 'list'
+    except Exception: return False
+
 # ---------------------------------------------------------------- program model
 class ClassInfo:
     def __init__(s, name): s.name, s.fields, s.methods, s.bases, s.dataclass = name, {}, {}, [], False
@@ -1246,6 +1250,8 @@ class Exec:
                 f = node.func
                 if isinstance(f, ast.Attribute) and f.attr in ('append', 'extend', 'pop', 'insert', 'clear'): add('list', f.value)
                 nm = f.attr if isinstance(f, ast.Attribute) else (f.id if isinstance(f, ast.Name) else None)
+                if top and isinstance(f, ast.Attribute) and isinstance(f.value, ast.Name) and f.value.id in getattr(s, 'list_locals', ()) and nm in ('append', 'extend', 'pop', 'insert', 'clear', 'reverse', 'index', 'count'):
+                    continue        # a method of a local that is declared to be a list: not a same-named method of some class
                 if nm in s.p.classes: heap.add(('fresh', nm))
                 for c_ in getattr(s.spec.builtins.get(ast.unparse(f)), 'fresh_classes', ()):
                     if c_ in s.p.classes: heap.add(('fresh', c_))
@@ -1524,6 +1530,9 @@ def generate(ex, owner, name, kind=None):
     for lst_ in (getattr(c, 'after_call', {}) or {}).values():
         for names_ in lst_:
             for nm_ in names_: st.env[nm_] = SV(Const('g0_' + nm_, IA), IARR) if nm_.startswith('A_') else SV(IntVal(0), NONE)
+    ex.list_locals = {a.arg for a in params if a.annotation is not None and (parse_ann(a.annotation, tv) or Ty('x')).kind == 'list'} \
+        | {x.target.id for x in ast.walk(fdef) if isinstance(x, ast.AnnAssign) and isinstance(x.target, ast.Name) and _is_list_ann(x.annotation, tv)} \
+        | {k_ for k_, t_ in (getattr(c, 'local_types', {}) or {}).items() if t_ is not None and t_.kind == 'list'}
     # touch every field so that the entry heap has symbols (needed for old())
     for cl in p.classes:
         for f, ty in p.classes[cl].fields.items(): ex.hget(st.heap, (cl, f), ty)
